@@ -88,7 +88,7 @@ int main(int argc, char **argv) {
 
 			try {
 				while (document.line_cnt-- > 0) {
-        util::StringPiece line(child_out.ReadLine());
+        util::StringPiece line(child_out.ReadLine('\n', false));
 					doc.append(line.data(), line.length());
 
 					// ReadLine eats line endings. Between lines we definitely
